@@ -76,6 +76,7 @@ func (f *Find) Call(s *slip.Scope, args slip.List, depth int) (found slip.Object
 	sfv.setKeysItem(f, s, args, depth)
 	switch ta := args[1].(type) {
 	case nil:
+		sfv.checkBounds(s, depth, 0)
 		// nothing found
 	case slip.List:
 		found = f.inList(s, ta, depth, &sfv)
@@ -92,14 +93,8 @@ func (f *Find) Call(s *slip.Scope, args slip.List, depth int) (found slip.Object
 }
 
 func (f *Find) inList(s *slip.Scope, seq slip.List, depth int, sfv *seqFunVars) slip.Object {
-	if len(seq) <= sfv.start {
-		return nil
-	}
-	if 0 <= sfv.end && sfv.end < len(seq) {
-		seq = seq[sfv.start:sfv.end]
-	} else {
-		seq = seq[sfv.start:]
-	}
+	sfv.checkBounds(s, depth, len(seq))
+	seq = seq[sfv.start:sfv.end]
 	d2 := depth + 1
 	if !sfv.fromEnd {
 		for _, element := range seq {
@@ -138,14 +133,8 @@ func (f *Find) inList(s *slip.Scope, seq slip.List, depth int, sfv *seqFunVars) 
 
 func (f *Find) inString(s *slip.Scope, seq slip.String, depth int, sfv *seqFunVars) (found slip.Object) {
 	ra := []rune(seq)
-	if len(ra) <= sfv.start {
-		return nil
-	}
-	if 0 <= sfv.end && sfv.end < len(ra) {
-		ra = ra[sfv.start:sfv.end]
-	} else {
-		ra = ra[sfv.start:]
-	}
+	sfv.checkBounds(s, depth, len(ra))
+	ra = ra[sfv.start:sfv.end]
 	d2 := depth + 1
 	var key slip.Object
 	if !sfv.fromEnd {
@@ -185,14 +174,8 @@ func (f *Find) inString(s *slip.Scope, seq slip.String, depth int, sfv *seqFunVa
 
 func (f *Find) inOctets(s *slip.Scope, seq slip.Octets, depth int, sfv *seqFunVars) (found slip.Object) {
 	ba := []byte(seq)
-	if len(ba) <= sfv.start {
-		return nil
-	}
-	if 0 <= sfv.end && sfv.end < len(ba) {
-		ba = ba[sfv.start:sfv.end]
-	} else {
-		ba = ba[sfv.start:]
-	}
+	sfv.checkBounds(s, depth, len(ba))
+	ba = ba[sfv.start:sfv.end]
 	d2 := depth + 1
 	var key slip.Object
 	if !sfv.fromEnd {
